@@ -11,6 +11,8 @@ pub enum MOp {
     Adv(u64),
     Add { loc: u8, arg: usize, len: Option<u64>, tpl: usize, prefix: String, fin: Fin },
     Remove(usize), MpPrintln(String), MpClear, MpSuspend(Vec<String>), Align(bool),
+    /// `MultiProgress::set_draw_target` with a new target over the same terminal (same rate)
+    Retarget,
     Bar(usize, BOp),
 }
 fn fin_enc(f: &Fin) -> String { match f { Fin::Leave => "leave".into(), Fin::Clear => "clear".into(), Fin::Abandon => "abandon".into(), Fin::Msg(m) => format!("msg {}", enc(m)), Fin::AbandonMsg(m) => format!("abandonmsg {}", enc(m)) } }
@@ -23,6 +25,7 @@ impl MOp {
             MOp::Remove(k) => format!("remove {k}"), MOp::MpPrintln(t) => format!("mpprintln {}", enc(t)), MOp::MpClear => "mpclear".into(),
             MOp::MpSuspend(ls) => format!("mpsuspend {}", ls.iter().map(|l| enc(l)).collect::<Vec<_>>().join(" ")),
             MOp::Align(b) => format!("align {}", if *b { "bottom" } else { "top" }),
+            MOp::Retarget => "retarget".into(),
             MOp::Bar(k, op) => format!("bar {k} {}", op.enc()),
         }
     }
@@ -84,7 +87,7 @@ pub fn gen_case(rng: &mut Rng, bottom: bool) -> Case {
                 24 => { let c = rng.below(3) as usize; MOp::MpSuspend((0..c).map(|_| { logn += 1; format!("S{logn}") }).collect()) }
                 25 => MOp::Adv(*rng.pick(&[0u64, 1, 1_000_000, 50_000_000, 1_000_000_000, 5_000_000_000])),
                 26 => MOp::Bar(k, BOp::Reset),
-                27 => if bottom { MOp::Align(rng.chance(1, 2)) } else { MOp::Bar(k, BOp::Tick) },
+                27 => if bottom { MOp::Align(rng.chance(1, 2)) } else if rng.chance(1, 2) { MOp::Retarget } else { MOp::Bar(k, BOp::Tick) },
                 28 => MOp::Bar(k, BOp::Suspend(vec![])),
                 _ => MOp::Bar(k, BOp::SetPos(rng.below(12))),
             }
@@ -184,6 +187,8 @@ pub fn run_case(c: &Case) -> (String, String) {
     let mut disturbed_after_finish = false;          // println / clear / suspend / remove after the first finish or drop
     let mut any_finished = false;
     let mut bottom_used = false;
+    let mut retargeted = false;
+    let mut log_unjudged = false;
     let mut lingering: Vec<String> = Vec::new();      // rows of bars removed since the last draw (remove does not redraw by itself)
     let mut any_remove = false;
     let mut cleared_since_draw = false;               // after MultiProgress::clear nothing need be shown until the next draw
@@ -218,6 +223,12 @@ pub fn run_case(c: &Case) -> (String, String) {
             MOp::MpPrintln(t) => { if any_finished { disturbed_after_finish = true; } mp.println(t).unwrap(); if t.is_empty() { logs.push(String::new()) } else { logs.extend(t.lines().map(|l| l.to_string())) } }
             MOp::MpClear => { if any_finished { disturbed_after_finish = true; } cleared_since_draw = true; mp.clear().unwrap() }
             MOp::MpSuspend(ls) => { if any_finished { disturbed_after_finish = true; } let r2 = rec.clone(); let l2 = ls.clone(); mp.suspend(move || for l in &l2 { r2.write_line(l).unwrap(); }); logs.extend(ls.iter().cloned()); }
+            // the old target's last frame stays on the screen: from here on only the log oracle and the model judge
+            MOp::Retarget => { bottom_used = true; retargeted = true;
+                // a frame that was cut off at the terminal height leaves the cursor in the middle of a row, and the new target cannot
+                // know: what is printed next continues that row. Nothing printed after such a retarget is judged by the log oracle.
+                let (_, col) = rec.cursor(); if col != 0 && col != c.w { log_unjudged = true; }
+                mp.set_draw_target(if c.hz == 0 { ProgressDrawTarget::term_like(Box::new(rec.clone())) } else { ProgressDrawTarget::term_like_with_hz(Box::new(rec.clone()), c.hz) }); }
             MOp::Align(b) => { bottom_used = true; mp.set_alignment(if *b { MultiProgressAlignment::Bottom } else { MultiProgressAlignment::Top }) }
             MOp::Bar(k, bop) => {
                 let info = &mut bars[*k];
@@ -251,7 +262,7 @@ pub fn run_case(c: &Case) -> (String, String) {
             }
         }
         // ---- oracles on the screen after this operation (only meaningful once something was flushed)
-        if verdict != "ok" { continue; }
+        if verdict != "ok" || log_unjudged { continue; }
         let rows = rec.rows();
         // C03: every log line present exactly once, in order
         let mut at = 0usize;
@@ -304,7 +315,7 @@ pub fn run_case(c: &Case) -> (String, String) {
         let region: Vec<String> = rows[at.min(rows.len())..].to_vec();
         if region != exp { verdict = format!("FAIL C04 final-renderings got={} exp={}", show_rows(&region), show_rows(&exp)); }
     }
-    if verdict == "ok" && !lingering.is_empty() && rec.flushes() > 0 {
+    if verdict == "ok" && !lingering.is_empty() && rec.flushes() > 0 && !retargeted {
         let rows = rec.rows();
         if let Some(r) = lingering.iter().find(|r| !r.is_empty() && rows.contains(r)) { verdict = format!("FAIL C02 removed-lines-linger row={r:?} screen={}", show_rows(&rows)); }
     }
@@ -375,5 +386,48 @@ pub fn run(seed: u64, tier: &str, out: &mut Out, bottom: bool) {
         let case = encode(&c);
         let (obs, verdict) = run_case(&c);
         out.emit(&case, &format!("{obs} ORACLE {verdict}"));
+    }
+}
+
+/// C03 (hidden detour): the MultiProgress is switched to a hidden target and back to the terminal
+/// (`set_draw_target`) while finished, dropped bars still have rows on the screen. Lines written to the
+/// terminal in between (by `suspend` closures) and printed afterwards must all stay. Judged by the log oracle only.
+pub fn run_detour(seed: u64, tier: &str, out: &mut Out) {
+    let mut rng = Rng::new(seed ^ 0x0303);
+    let n = if tier == "thorough" { 50_000 } else { 1_500 };
+    for _ in 0..n {
+        vh::set_auto_advance_ns(0); vh::set_now_ns(T0);
+        let rec = Recorder::new(24, 40, true);
+        let mp = MultiProgress::with_draw_target(ProgressDrawTarget::term_like(Box::new(rec.clone())));
+        let nb = rng.range(1, 4) as usize;
+        let mut case = format!("NOMODEL DETOUR bars={nb}");
+        let mut logs: Vec<String> = Vec::new();
+        let mut bars: Vec<Option<ProgressBar>> = (0..nb).map(|i| {
+            let pb = ProgressBar::with_draw_target(Some(10), ProgressDrawTarget::hidden());
+            pb.set_style(ProgressStyle::with_template(if i % 2 == 0 { "{prefix} {pos}/{len}" } else { "{prefix}\n{pos}" }).unwrap());
+            Some(mp.add(pb.with_prefix(format!("B{i}")).with_finish(ProgressFinish::AndLeave)))
+        }).collect();
+        for b in bars.iter().flatten() { b.tick(); }
+        let mut logn = 0;
+        let mut hidden = false;
+        let k = rng.range(3, 14);
+        for _ in 0..k {
+            match rng.below(8) {
+                0 | 1 => { if let Some(i) = (0..nb).find(|&i| bars[i].is_some()) { case += &format!(" ; finishdrop {i}"); let b = bars[i].take().unwrap(); b.finish(); drop(b); } }
+                2 => { logn += 1; let l = format!("L{logn}"); case += &format!(" ; println {l}"); mp.println(&l).unwrap(); if !hidden { logs.push(l); } }
+                3 => { logn += 1; let l = format!("S{logn}"); case += &format!(" ; suspend {l}"); let r2 = rec.clone(); let l2 = l.clone(); mp.suspend(move || r2.write_line(&l2).unwrap()); logs.push(l); }
+                4 => { case += " ; hide"; mp.set_draw_target(ProgressDrawTarget::hidden()); hidden = true; }
+                5 => { case += " ; show"; mp.set_draw_target(ProgressDrawTarget::term_like(Box::new(rec.clone()))); hidden = false; }
+                6 => { if let Some(b) = bars.iter().flatten().last() { case += " ; tick"; b.tick(); } }
+                _ => { if let Some(b) = bars.iter().flatten().next() { logn += 1; let l = format!("P{logn}"); case += &format!(" ; barprintln {l}"); b.println(&l); if !hidden { logs.push(l); } } }
+            }
+        }
+        let rows = rec.rows();
+        let mut at = 0usize; let mut verdict = "ok".to_string();
+        for l in &logs {
+            match (at..rows.len()).find(|&i| rows[i] == *l) { Some(i) => at = i + 1, None => { verdict = format!("FAIL C03 log-missing-after-detour line={l:?} screen={}", show_rows(&rows)); break; } }
+        }
+        let _ = std::panic::catch_unwind(std::panic::AssertUnwindSafe(|| { drop(bars); drop(mp); }));
+        out.emit(&case, &format!(" ORACLE {verdict}"));
     }
 }
